@@ -529,7 +529,10 @@ func (s *sess) readCheck(b *behaviour, si, off, n int, devs map[[2]int]*dev, rew
 	got, gotEOF := s.atomsOf(buf[:k]), err == io.EOF
 	d := devs[[2]int{off, n}]
 	if eqInts(got, exp) && gotEOF == expEOF {
-		if d != nil {
+		if d != nil && d.Cls == "stale-chunk" && c.Multi {
+			// which stale handles are open (and with which limit) depends on the eviction order the spec leaves open
+			s.res.Count("stale-chunk-prediction-depends-on-eviction-order", 1)
+		} else if d != nil {
 			s.res.Count("predicted-deviation-not-observed", 1)
 			s.res.DriftNote(fmt.Sprintf("transcribed code predicts ReadAt(%d,%d)=%v eof=%v (%s), real code agrees with the byte array after %s", off, n, d.Bs, d.Eof, d.Cls, show(b.Ops[:si+1])))
 		}
